@@ -5,10 +5,12 @@
    unchanged" are statements about references and heap cells.  All theorems hold for every checker
    `check` (type_safe on or off), every class chain (field counts, defaults, default_factory, init=False,
    decorated / undecorated subclasses, every slots/order/kw_only choice), every heap and receiver,
-   every set of replaced fields. *)
+   every set of replaced fields, every user-written __post_init__ (bodies that assign attributes of the new object with
+   object.__setattr__, call super().__post_init__(), return or raise).  A field that such a hook assigns holds what the
+   hook assigned - the statements about field values are for the other fields (`hook_set_names`). *)
 From Coq Require Import List ZArith Bool Arith Lia.
 From PV Require Import Base.Exn Model.Dataclass Spec.DataclassSpec Proofs.DataclassBase Proofs.DataclassRef
-  Proofs.DataclassC10 Proofs.DataclassC11 Gen.Dataclass.
+  Proofs.DataclassC10 Proofs.DataclassC11 Proofs.DataclassSucceeds Gen.Dataclass.
 Import ListNotations.
 
 Definition P : prog := Gen.Dataclass.dc_prog.
@@ -17,28 +19,80 @@ Theorem C11_prog_good : prog_good P = true.
 Proof. vm_compute. reflexivity. Qed.
 Print Assumptions C11_prog_good.
 
-Lemma P_ref : P = ref_prog (p_defaults P).
+Definition defs := p_defaults P.
+Lemma P_ref : P = ref_prog defs.
 Proof. apply prog_good_eq, C11_prog_good. Qed.
 
 (* ---------------------------------------------------------------- frozen *)
-(* instances of a decorated class (any options, any bases) reject every assignment and every deletion,
-   for every attribute name - fields and new names alike - and nothing changes.  The exception is
-   FrozenInstanceError, except for a new name on a slots=True class, where CPython 3.12's generated
-   __setattr__ fails with TypeError in its super() call (still rejected, state untouched). *)
-Theorem C11_frozen : forall L rest r n v st,
+(* FULL STATEMENT (false, see C11_frozen_undecorated_subclass_refuted): for every class C with a @frozen_dataclass class
+   in its MRO (nearest_deco C <> None: the instances of C are instances of that class), every name n and value v,
+     rejected st (setattr P C r n v st) /\ rejected st (delattr P C r n st).
+   Proved in the exact region where it holds (frozen_guard): the instance's own class is decorated, or the name is a
+   field, or some class of the hierarchy was decorated with slots=True *)
+Theorem C11_frozen_partial : forall C r n v st,
+  frozen_guard P C n = true ->
+  rejected st (setattr P C r n v st) /\ rejected st (delattr P C r n st).
+Proof.
+  rewrite P_ref. intros C r n v st Hg.
+  assert (Hne : setattr_chain (ref_prog defs) true C n <> SAObject).
+  { unfold frozen_guard in Hg. apply orb_true_iff in Hg as [Hg|Hg]; [apply orb_true_iff in Hg as [Hg|Hg]|].
+    - destruct C as [|L rest]; [discriminate|]. rewrite (setattr_chain_decorated _ L rest n Hg).
+      destruct (negb (eff_slots (ref_prog defs) L) || mem n (field_names (L :: rest))); discriminate.
+    - rewrite (setattr_chain_field _ C n true Hg). discriminate.
+    - now apply setattr_chain_slots. }
+  unfold setattr, delattr.
+  destruct (setattr_chain (ref_prog defs) true C n); [| |congruence];
+    (split; (split; [reflexivity|eexists; reflexivity])).
+Qed.
+Print Assumptions C11_frozen_partial.
+
+(* outside that region the statement is false: an instance of an UNDECORATED subclass of a @frozen_dataclass class
+   (no slots anywhere) accepts the assignment of every name that is not a field - plain dataclasses behaviour:
+   the generated __setattr__ only raises when `type(self) is cls or name in fields`.  General form and witness
+   (class A: x; class B(A): pass; b = B(x=3); b.y = 0 is accepted, and del b.y afterwards).
+   Replayed on the real code (finding C11-subclass-unfrozen) *)
+Theorem C11_frozen_undecorated_subclass_refuted :
+  (forall C r n v st o, C <> [] -> frozen_guard P C n = false -> nth_error (s_heap st) r = Some o ->
+     exists st', setattr P C r n v st = (st', Ok tt) /\ getattr (s_heap st') r n = Some v) /\
+  (let C := [mkLayer 2 None [] None; mkLayer 1 (Some (mkDeco false [])) [mkField 0 0 DNone true true] None] in
+   let st := mkSt [mkObj (KData 2) [] [(0, VAtom 3)]] [] in
+   nearest_deco C <> None /\ frozen_guard P C 77 = false /\
+   exists st', setattr P C 0 77 (VAtom 0) st = (st', Ok tt) /\ getattr (s_heap st') 0 77 = Some (VAtom 0) /\
+               snd (delattr P C 0 77 st') = Ok tt).
+Proof.
+  split.
+  - rewrite P_ref. intros C r n v st o Hne Hg Ho. unfold frozen_guard in Hg.
+    apply orb_false_iff in Hg as [Hg Hs]. apply orb_false_iff in Hg as [Hd Hm].
+    destruct C as [|L rest]; [congruence|].
+    assert (Hc : setattr_chain (ref_prog defs) true (L :: rest) n = SAObject).
+    { simpl setattr_chain. rewrite Hd. simpl. apply setattr_chain_open.
+      - eapply field_names_rest. eassumption.
+      - simpl in Hs. now apply orb_false_iff in Hs as [_ Hs]. }
+    assert (Hdict : has_dict (ref_prog defs) (L :: rest) = true) by (simpl; now rewrite Hd).
+    unfold setattr. rewrite Hc, Hdict. simpl. eexists. split; [reflexivity|].
+    cbn [s_heap]. unfold getattr. rewrite heap_upd_same, Ho. simpl. rewrite lookup_dict_set. now rewrite Nat.eqb_refl.
+  - cbv zeta. split; [discriminate|]. split; [vm_compute; reflexivity|].
+    eexists. split; [vm_compute; reflexivity|]. split; vm_compute; reflexivity.
+Qed.
+Print Assumptions C11_frozen_undecorated_subclass_refuted.
+
+(* instances of a decorated class (any options, any bases): which exception.  FrozenInstanceError, except for a new
+   name on a slots=True class, where CPython 3.12's generated __setattr__ fails with TypeError in its super() call
+   (still rejected, state untouched) *)
+Theorem C11_frozen_decorated_partial : forall L rest r n v st,
   decorated L = true ->
   let e := if negb (eff_slots P L) || mem n (field_names (L :: rest)) then FrozenInstanceErrorC else TypeErrorC in
   setattr P (L :: rest) r n v st = (st, Raise e) /\ delattr P (L :: rest) r n st = (st, Raise e) /\
   rejected st (setattr P (L :: rest) r n v st) /\ rejected st (delattr P (L :: rest) r n st).
 Proof.
   rewrite P_ref. intros L rest r n v st HL e.
-  assert (A : setattr (ref_prog (p_defaults P)) (L :: rest) r n v st = (st, Raise e) /\
-              delattr (ref_prog (p_defaults P)) (L :: rest) r n st = (st, Raise e)).
+  assert (A : setattr (ref_prog defs) (L :: rest) r n v st = (st, Raise e) /\
+              delattr (ref_prog defs) (L :: rest) r n st = (st, Raise e)).
   { unfold setattr, delattr. rewrite (setattr_chain_decorated _ L rest n HL). unfold e.
-    destruct (negb (eff_slots (ref_prog (p_defaults P)) L) || mem n (field_names (L :: rest))); split; reflexivity. }
+    destruct (negb (eff_slots (ref_prog defs) L) || mem n (field_names (L :: rest))); split; reflexivity. }
   destruct A as [A B]. rewrite A, B. repeat split; try reflexivity; exists e; reflexivity.
 Qed.
-Print Assumptions C11_frozen.
+Print Assumptions C11_frozen_decorated_partial.
 
 (* for every class of the hierarchy, also subclasses that are not decorated themselves: fields can be
    neither assigned nor deleted *)
@@ -64,13 +118,15 @@ Print Assumptions C11_original_unchanged.
 (* ---------------------------------------------------------------- copy_with *)
 (* FULL STATEMENT (false for init=False fields, see C11_copy_init_false_refuted): for EVERY field f of the
    class, getattr copy f = kw f where given, else the very object the original holds.
-   Proved for every field that takes part in __init__: *)
+   Proved for every field that takes part in __init__ and that no user-written __post_init__ of the hierarchy assigns
+   (a hook that assigns a field decides its value itself: C11_hook_assigned_field_example).
+   That copy_with RETURNS for every well-formed request is C11_copy_succeeds below. *)
 Theorem C11_copy_fields_partial : forall check C r kw st st' r',
   copy_with P check C r kw st = (st', Ok r') ->
   (* a new object *)               List.length (s_heap st) <= r' /\
   (* of the same class *)          class_of (s_heap st') r' = Some (class_id C) /\
   (* fields: kw where given, the original's otherwise *)
-  (forall f, In f (dc_fields C) -> f_init f = true ->
+  (forall f, In f (dc_fields C) -> f_init f = true -> ~ In (f_name f) (hook_set_names C) ->
      getattr (s_heap st') r' (f_name f) = expected_field kw (s_heap st) r (f_name f) /\
      getattr (s_heap st') r' (f_name f) <> None) /\
   (* only init fields can be replaced at all *)
@@ -86,13 +142,13 @@ Print Assumptions C11_copy_fields_partial.
 (* shallow: an un-replaced field of the copy IS the original's object (same reference), whatever it is *)
 Theorem C11_copy_shallow_shares_partial : forall check C r kw st st' r' f,
   copy_with P check C r kw st = (st', Ok r') ->
-  In f (dc_fields C) -> f_init f = true -> lookup kw (f_name f) = None ->
+  In f (dc_fields C) -> f_init f = true -> ~ In (f_name f) (hook_set_names C) -> lookup kw (f_name f) = None ->
   getattr (s_heap st') r' (f_name f) = getattr (s_heap st) r (f_name f) /\
   getattr (s_heap st) r (f_name f) <> None.
 Proof.
-  intros check C r kw st st' r' f H Hf Hi Hk.
+  intros check C r kw st st' r' f H Hf Hi Hnh Hk.
   destruct (C11_copy_fields_partial check C r kw st st' r' H) as [_ [_ [A _]]].
-  destruct (A f Hf Hi) as [A1 A2]. unfold expected_field in A1. rewrite Hk in A1. split; [assumption|congruence].
+  destruct (A f Hf Hi Hnh) as [A1 A2]. unfold expected_field in A1. rewrite Hk in A1. split; [assumption|congruence].
 Qed.
 Print Assumptions C11_copy_shallow_shares_partial.
 
@@ -101,16 +157,18 @@ Print Assumptions C11_copy_shallow_shares_partial.
 Theorem C11_init_false_reinitialised : forall check C r kw st st' r' f (deep : bool),
   (if deep then deep_copy_with P check C r kw st else copy_with P check C r kw st) = (st', Ok r') ->
   (deep = true -> r < List.length (s_heap st) /\ NoDup (map fst kw)) ->
-  In f (dc_fields C) -> f_init f = false ->
+  In f (dc_fields C) -> f_init f = false -> ~ In (f_name f) (hook_set_names C) ->
   lookup kw (f_name f) = None /\
   (forall v, f_default f = DVal v -> getattr (s_heap st') r' (f_name f) = Some v) /\
   (forall k, f_default f = DFactory k -> exists q, getattr (s_heap st') r' (f_name f) = Some (VRef q) /\
        List.length (s_heap st) <= q /\ nth_error (s_heap st') q = Some (mkObj k [] [])).
 Proof.
-  rewrite P_ref. intros check C r kw st st' r' f deep H Hd Hf Hi. destruct deep.
+  rewrite P_ref. intros check C r kw st st' r' f deep H Hd Hf Hi Hnh. destruct deep.
   - destruct (Hd eq_refl) as [Hr Hn].
-    destruct (deep_copy_with_result _ check C r kw st st' r' H Hr Hn) as [_ [_ [_ [_ [A _]]]]]. now apply A.
-  - destruct (copy_with_result _ check C r kw st st' r' H) as [_ [_ [_ [_ [A _]]]]]. now apply A.
+    destruct (deep_copy_with_result _ check C r kw st st' r' H Hr Hn) as [_ [_ [_ [_ [A _]]]]].
+    destruct (A f Hf Hi) as [A1 A2]. split; [assumption|]. now apply A2.
+  - destruct (copy_with_result _ check C r kw st st' r' H) as [_ [_ [_ [_ [A _]]]]].
+    destruct (A f Hf Hi) as [A1 A2]. split; [assumption|]. now apply A2.
 Qed.
 Print Assumptions C11_init_false_reinitialised.
 
@@ -132,13 +190,14 @@ Print Assumptions C11_copy_init_false_refuted.
 (* ---------------------------------------------------------------- deep_copy_with *)
 (* FULL STATEMENT (false for init=False fields whose default is a mutable object, see
    C11_deep_init_false_refuted): no mutable object is reachable both from a field of the copy that was not
-   given in kw and from the original.  Proved for the fields that take part in __init__: *)
+   given in kw and from the original.  Proved for the fields that take part in __init__ and that no user-written
+   __post_init__ assigns (that deep_copy_with RETURNS for every well-formed request is C11_copy_succeeds): *)
 Theorem C11_deep_fields_partial : forall check C r kw st st' r',
   deep_copy_with P check C r kw st = (st', Ok r') ->
   r < List.length (s_heap st) -> NoDup (map fst kw) -> heap_wf (s_heap st) ->
   List.length (s_heap st) <= r' /\
   class_of (s_heap st') r' = Some (class_id C) /\
-  (forall f, In f (dc_fields C) -> f_init f = true ->
+  (forall f, In f (dc_fields C) -> f_init f = true -> ~ In (f_name f) (hook_set_names C) ->
      match lookup kw (f_name f) with
      | Some v => getattr (s_heap st') r' (f_name f) = Some v
      | None => exists v v', getattr (s_heap st) r (f_name f) = Some v /\ getattr (s_heap st') r' (f_name f) = Some v' /\
@@ -154,7 +213,7 @@ Proof.
   rewrite P_ref. intros check C r kw st st' r' H Hr Hn Hwf.
   destruct (deep_copy_with_result _ check C r kw st st' r' H Hr Hn) as [_ [A [B [C0 [_ D]]]]].
   split; [assumption|]. split; [assumption|]. split; [|assumption].
-  intros f Hf Hi. specialize (C0 f Hf Hi). destruct (lookup kw (f_name f)); [assumption|].
+  intros f Hf Hi Hnh. specialize (C0 f Hf Hi Hnh). destruct (lookup kw (f_name f)); [assumption|].
   destruct C0 as [v [v' [G1 [G2 G3]]]]. exists v, v'. split; [assumption|]. split; [assumption|].
   assert (Hv : ref_ok (List.length (s_heap st)) v).
   { unfold getattr in G1. destruct (nth_error (s_heap st) r) as [o|] eqn:Eo; [|discriminate].
@@ -187,17 +246,51 @@ Proof.
   rewrite P_ref. intros check C r kw st st' r' deep H. destruct deep.
   - (* the class and freshness of the result do not depend on the side conditions of the field lemma *)
     destruct (grows_deep_copy_with _ check C r kw _ _ _ H) as [extT HT].
-    unfold deep_copy_with in H. change (has_meth (ref_prog (p_defaults P)) MDeepCopyWith) with true in H. cbv iota in H.
-    unfold bindM at 1 in H. destruct (deep_args (ref_prog (p_defaults P)) C r kw st) as [s1 [args|e]] eqn:Ea; [|discriminate].
-    change (deep_ctor (ref_prog (p_defaults P)) C) with C in H.
-    destruct (construct_result _ check _ _ _ _ _ _ H) as [attrs [ext [_ [Hh [Hr' _]]]]].
-    destruct (grows_deep_args (ref_prog (p_defaults P)) C r kw _ _ _ Ea) as [e1 He1].
+    unfold deep_copy_with in H. change (has_meth (ref_prog defs) MDeepCopyWith) with true in H. cbv iota in H.
+    unfold bindM at 1 in H. destruct (deep_args (ref_prog defs) C r kw st) as [s1 [args|e]] eqn:Ea; [|discriminate].
+    change (deep_ctor (ref_prog defs) C) with C in H.
+    destruct (construct_result _ check _ _ _ _ _ _ H) as [attrs [attrs' [ext [_ [Hh [Hr' _]]]]]].
+    destruct (grows_deep_args (ref_prog defs) C r kw _ _ _ Ea) as [e1 He1].
     split.
     + unfold class_of. rewrite Hh, Hr'. rewrite nth_error_app2, Nat.sub_diag by lia. reflexivity.
     + subst r'. rewrite app_length, He1, app_length. lia.
   - destruct (copy_with_result _ check C r kw st st' r' H) as [_ [A [B _]]]. split; assumption.
 Qed.
 Print Assumptions C11_same_class.
+
+(* ---------------------------------------------------------------- the copy methods return *)
+(* a well-formed request (every keyword names a field of __init__; the receiver holds a value for every field of
+   __init__) is never refused by the binding machinery - dataclasses.replace / the constructor call of deep_copy_with
+   build the new object on every class, with init=False fields, defaults, inheritance, slots ... - and it is RETURNED
+   - always when the generated __init__ does not call __post_init__ (type_safe off along the whole MRO and no user hook),
+   - otherwise iff __post_init__ (user hooks, then the type checks) accepts it: post_init_run, characterised in
+     Props/C10.v; for a type-safe class without user hook: iff every field of the new object conforms *)
+Theorem C11_copy_succeeds : forall check C D r kw st (deep : bool),
+  nearest_deco C = Some D ->
+  request_ok (dc_fields C) kw = true -> receiver_ok (dc_fields C) (s_heap st) r = true ->
+  let p := if deep then ByDeep r kw else ByCopy r kw in
+  let run := if deep then deep_copy_with P check C r kw st else copy_with P check C r kw st in
+  exists st1 r1, path_candidate P C p st = (st1, Ok r1) /\
+    (init_calls_pi P D = false -> run = (st1, Ok r1)) /\
+    (init_calls_pi P D = true ->
+       ((exists st', run = (st', Ok r1)) <-> snd (post_init_run defs check C p r1 (s_heap st1)) = Ok tt)) /\
+    (validating P C = true -> user_of (resolve_pi P C) = None ->
+       (forall b, In b (vis_list (resolve_pi P C) (path_via p) 0) ->
+                  all_conform (check b) (s_heap st1) (dc_fields C) r1 = true) ->
+       exists st', run = (st', Ok r1)).
+Proof.
+  rewrite P_ref. intros check C D r kw st deep HD Hreq Hrec p run.
+  assert (Hrun : run = run_path (ref_prog defs) check C p st) by (unfold run, p; destruct deep; reflexivity).
+  assert (Hp : path_request_ok (dc_fields C) p (s_heap st) = true)
+    by (unfold p; destruct deep; simpl; now rewrite Hreq, Hrec).
+  destruct (path_succeeds defs check C D p st HD Hp) as [st1 [r1 [Hc [Hq Hi]]]].
+  exists st1, r1. rewrite Hrun. split; [assumption|]. split; [assumption|]. split; [intro X; now destruct (Hi X)|].
+  intros Hv Hu Hall. unfold validating in Hv. rewrite HD in Hv. apply andb_true_iff in Hv as [Hinit Hn].
+  destruct (Hi Hinit) as [Hiff _]. apply Hiff.
+  rewrite post_init_wrapped. unfold hooks_run. rewrite (core_no_user _ (resolve_pi_wf defs C) Hn Hu). cbn [pi_spec snd].
+  now apply validations_ok.
+Qed.
+Print Assumptions C11_copy_succeeds.
 
 (* ---------------------------------------------------------------- __eq__, __hash__, ordering *)
 (* whatever Python does with two tuples (tuple_cmp, tuple_hash arbitrary): for two instances of the same
@@ -247,9 +340,22 @@ Example C11_example :
   fields_tuple ex_heap 2 (dc_fields C) = Some [VAtom 3; VRef 0; VAtom 4].
 Proof. cbv zeta. repeat split; vm_compute; reflexivity. Qed.
 
-(* outside the statement, recorded so that the boundary is explicit: an instance of a subclass that is NOT
-   decorated accepts new attribute names (plain dataclasses behaviour; its fields stay frozen) *)
-Example C11_undecorated_subclass_new_name :
-  let C := [mkLayer 2 None [] None; mkLayer 1 (Some (mkDeco false [])) [mkField 0 0 DNone true true] None] in
-  snd (setattr P C 0 77 (VAtom 0) (mkSt [mkObj (KData 2) [] [(0, VAtom 3)]] [])) = Ok tt.
-Proof. vm_compute. reflexivity. Qed.
+(* the hypotheses of C11_copy_succeeds hold on the example classes, with init=False field and slots, on both methods *)
+Example C11_copy_succeeds_example :
+  let C := [ex_child; ex_parent] in
+  nearest_deco C = Some [ex_parent] /\ init_calls_pi P [ex_parent] = false /\
+  request_ok (dc_fields C) [(0, VAtom 8)] = true /\ receiver_ok (dc_fields C) ex_heap 2 = true /\
+  frozen_guard P C 77 = true /\ frozen_guard P [ex_parent] 77 = true.
+Proof. cbv zeta. repeat split; vm_compute; reflexivity. Qed.
+
+(* the boundary of the field statements: a field that a user-written __post_init__ assigns holds what the hook assigned,
+   whatever copy_with was given (class with def __post_init__(self): object.__setattr__(self, 'f0', <atom 4>)) *)
+Example C11_hook_assigned_field_example :
+  let C := [mkLayer 0 (Some (mkDeco false [])) [mkField 0 0 DNone true true; mkField 1 1 DNone true true]
+                    (Some (mkPib [PSet 0 (VAtom 4)] None))] in
+  let st := mkSt [mkObj (KData 0) [] [(0, VAtom 4); (1, VAtom 1)]] [] in
+  hook_set_names C = [0] /\
+  snd (copy_with P no_check C 0 [(0, VAtom 7); (1, VAtom 2)] st) = Ok 1 /\
+  getattr (s_heap (fst (copy_with P no_check C 0 [(0, VAtom 7); (1, VAtom 2)] st))) 1 0 = Some (VAtom 4) /\
+  getattr (s_heap (fst (copy_with P no_check C 0 [(0, VAtom 7); (1, VAtom 2)] st))) 1 1 = Some (VAtom 2).
+Proof. cbv zeta. repeat split; vm_compute; reflexivity. Qed.
